@@ -39,7 +39,11 @@ impl Orchestrator {
   { unimplemented!() }
   #[verifier::external_body]
   pub async fn route_message(&mut self, fb: FrameBatch, wait_for_peer: bool) -> (r: Result<(), (FrameBatch, ZmqError)>)
-    ensures final(self).routed@ == old(self).routed@.push(fb@), r matches Err(p) ==> p.0@ == fb@
+    // (what unit route PROVES of route_message: the batch comes back intact only with would-block; for timeout / closed the
+    //  callee hands back an EMPTY batch -- the message is gone inside the dropped pipe-send future)
+    ensures r is Ok ==> final(self).routed@ == old(self).routed@.push(fb@),
+            r is Err ==> final(self).routed@ == old(self).routed@,
+            r matches Err(p) ==> ((p.1 is ResourceLimitReached) ==> p.0@ == fb@)
   { unimplemented!() }
 }
 // #[derive(Default)] of Msg: the empty message
@@ -86,6 +90,8 @@ parts = [
      ensures=[
        ("C01:a_message_is_routed_directly_only_when_no_older_accepted_message_is_pending",
         "final(self).outgoing_orchestrator.routed@.len() > old(self).outgoing_orchestrator.routed@.len() ==> old(self).pending_outgoing_queue@.len() == 0 && !old(self).queued_message_in_flight.v"),
+       ("C01+C14:only_the_callers_message_is_ever_queued_never_a_substitute",
+        "final(self).queued_log@ == old(self).queued_log@ || final(self).queued_log@ == old(self).queued_log@.push(zmtp_wire_frames@)"),
        ("C01:the_message_goes_to_exactly_one_of_the_two_paths_or_back_to_the_queue_when_refused",
         "r is Ok ==> (final(self).outgoing_orchestrator.routed@ == old(self).outgoing_orchestrator.routed@.push(zmtp_wire_frames@) || final(self).queued_log@ == old(self).queued_log@.push(zmtp_wire_frames@))"),
      ],
